@@ -27,29 +27,41 @@ CHECKS = {
     ),
     "C02": (
         "model_checking",
-        "TLA+ Checker.tla (requirement objects of a lattice program, truth from the exact Overlap.tla oracle, checker actions "
-        "Sort = any permutation / DropTrailingOptional / Eval / UpdateStats, BasicChecker) checked by TLC over program x assignment x "
-        "active set x order; bound to the code by running Scenario.generate once per RNG branch under four checker passes with a "
-        "scripted clock, auditing every verdict against SceneOK and validating every logged Eval trace with CheckerTrace.tla",
+        "TLA+ Checker.tla (requirement objects of a lattice program, truth from the exact Overlap.tla oracle on the FINAL scene "
+        "(position + mutation noise, composed yaw, selected shape), checker actions Sort = any permutation / DropTrailingOptional / "
+        "Eval / UpdateStats, BasicChecker) checked by TLC over program x assignment x active set x order; bound to the code by "
+        "running Scenario.generate once per RNG branch (scripted random incl. gauss) under four checker passes with a scripted "
+        "clock, auditing every verdict against SceneOK and validating every logged Eval trace with CheckerTrace.tla",
         "TLC checks AcceptSound, OnlyOptionalSkipped, RejectSound, OrderIrrelevant, OptionalConsistent, ListMatchesReference, "
-        "StatsExact, InOrder for every assignment and order of every generated program; every accepted real scene must satisfy "
-        "SceneOK of its assignment, no assignment with SceneOK = T may be rejected, and the logged Eval sequences are accepted by "
-        "CheckerTrace.tla.",
-        "Lattice programs only, 3-D mode, visibility only in clear-cut configurations, touching = don't-care, seeded program sample, "
-        "permutations complete up to 5 active requirements.",
+        "StatsExact, InOrder for every assignment and order of every generated program; every accepted real scene (final geometry "
+        "read from the sample handed to the checker and from the returned Scene) must satisfy SceneOK of its assignment, no "
+        "assignment with SceneOK = T may be rejected, a compile-time InvalidScenarioError is legitimate only if no assignment is "
+        "valid, and the logged Eval sequences are accepted by CheckerTrace.tla.",
+        "Lattice programs only (2-4 box-union objects, discrete positions / yaw / allowCollisions, objects with fixed pose next to "
+        "a boundary, `mutate` with scripted Gaussian noise, random shapes of fixed dimensions, own regionContainedIn, box / polygon "
+        "workspaces, coordinate predicates, 3-D mode); visibility only in clear-cut configurations with an unrotated viewer; "
+        "touching = don't-care; seeded program sample; permutations complete up to 5 active requirements (rotation family beyond); "
+        "2-D mode, curved shapes, continuous distributions and maxIterations > 1 not covered. No open finding (the two defects "
+        "found, occluder iterator and validate() crash, are repaired).",
         "3/C02",
     ),
     "C04": (
         "model_checking",
-        "TLA+ Overlap.tla: exact integer oracle for unions of lattice boxes under the 24 cube rotations + the decision lists of "
-        "Object.intersects / MeshVolumeRegion.intersects / containsObject / PolygonalFootprintRegion.containsObject / "
-        "minimumDistanceTo as guarded exits over named exact quantities; TLC checks every exit sound, lists total, oracle lemmas; "
-        "bound to the code by replay of a stratified batch on the real objects (answers compared, exits probed with sys.monitoring)",
-        "TLC enumerates every configuration of the universe blocks and every internal choice and checks ExitsSound, DoneSound, "
-        "OracleLemmas and deadlock-freedom; the batch configurations are replayed on the real Object/Region code and intersects "
-        "(both directions), containsObject and minimumDistanceTo must equal the oracle unless the configuration touches.",
-        "Exact lattice sub-universe only (no generic angles, curved primitives, composed regions); touching = don't-care; known "
-        "findings fcl-convex-distance (third-party) and nested-nonconvex-distance.",
+        "TLA+ Overlap.tla: exact integer oracle for unions of lattice boxes under the 24 cube rotations (global rotation = exact "
+        "composition of a parent and a local rotation) + the decision lists of Object.intersects / MeshVolumeRegion.intersects / "
+        "containsObject / PolygonalFootprintRegion.containsObject / minimumDistanceTo as guarded exits over named exact "
+        "quantities; TLC checks every exit sound, lists total, oracle lemmas; bound to the code by replay of a stratified batch on "
+        "the real objects (tilt given through own angles or through parentOrientation; answers compared, exits probed with "
+        "sys.monitoring)",
+        "TLC enumerates every configuration of the universe blocks (shape pairs x parent and local rotations x lattice window) and "
+        "every internal choice and checks ExitsSound, DoneSound, OracleLemmas and deadlock-freedom; the batch configurations, "
+        "stratified by procedure, deciding exit and expected answer (parent-tilted boxes as strata of their own), are replayed on "
+        "the real Object / Region code and intersects (both directions), containsObject and minimumDistanceTo must equal the "
+        "oracle unless the configuration touches.",
+        "Exact lattice sub-universe only (unions of 1-3 half-unit lattice boxes, 24 cube rotations, rectilinear footprints); no "
+        "generic angles, curved primitives or composed regions; the Object.intersects(PolygonalRegion) fast path is not modelled; "
+        "touching / flush = don't-care; the exit taken is diagnostic only. Open known findings: fcl-convex-distance (third-party "
+        "FCL) and nested-nonconvex-distance.",
         "3/C04",
     ),
     "C14": (
@@ -65,38 +77,55 @@ CHECKS = {
         "RevertOnStop and that each named deviation violates one of them.",
         "One program template (Main > Child > Inner, both children overriding the same property, Child cut short while Inner "
         "runs, a behaviour assigning the property before it is overridden) in two variants; model-import faults and Simulation.destroy faults are not injected; internal run "
-        "flags are diagnostic only; known finding current-behavior-restored-late.",
+        "flags are diagnostic only; follow-up operations (simulate the same scene, generate and simulate, recompile, simulate with "
+        "the top-level guard false) are compared with a process that simulated nothing before; five named deviations of "
+        "Lifecycle.tla (ledger, start flag, cleanup order, run-time module globals, recorder buffer), all repaired or seeded; "
+        "no open finding.",
         "3/C14",
     ),
     "C18": (
         "fault_enumeration",
-        "TLA+ Codec.tla (scene writer/reader over the sample DAG with the seen set, byte-level integer fields, Truncate/Flip/Foreign "
-        "faults; strict reader = ideal, lenient reader = named deviation) and Replay.tla (record/replay/divergence step machine) "
-        "checked by TLC; bound to the code by replay: every sample of every program through sceneToBytes/sceneFromBytes, every "
-        "truncation point and representative byte changes, foreign readers, and every TLC behaviour of Replay.tla through "
-        "simulate/simulationToBytes/simulationFromBytes with scripted RNG and a perturbing simulator",
-        "TLC checks RoundTrip, FieldsExact, OnlySelected, TruncationRefused, CorruptionContained, HeaderGuards, ReplayEqual, "
-        "LongerReplayContinues, DivergenceDetectedBothSigns on every (program, sample, fault)/behaviour; on the real code every "
-        "truncation point of every distinct encoding must raise SerializationError, changed bytes give a scene or "
-        "SerializationError, foreign readers refuse, decoded scenes equal the originals, replays reproduce the run and report a "
-        "divergence iff |actual - expected| > tolerance in either direction.",
-        "Integer, float and Vector primitives only; representative flips per byte (truncation exhaustive per encoding); boundary "
-        "core + seeded random programs; harness-written deterministic simulator for replays.",
+        "TLA+ Codec.tla (scene writer/reader over the sample DAG with the seen set, byte-level integer fields, restricted-domain "
+        "operations recomputed at decode time, Truncate/Flip/Foreign faults; strict reader = ideal, lenient reader = named "
+        "deviation), CodecOptions.tla (options digest = injective function of the whole option valuation, every ordered pair of "
+        "valuations) and Replay.tla (record/replay/divergence step machine, base-independent divergence criterion) checked by TLC; "
+        "bound to the code by replay: every sample (all RNG branches) of every program through sceneToBytes/sceneFromBytes, every "
+        "truncation point and representative byte changes, foreign readers, encode under options A / decode under B, and every "
+        "TLC behaviour of Replay.tla through simulate/simulationToBytes/simulationFromBytes with scripted RNG and a perturbing "
+        "simulator",
+        "TLC checks RoundTrip, FieldsExact, OnlySelected, TruncationRefused, CorruptionContained, HeaderGuards, "
+        "DomainErrorsRefused, AcceptIffEqual (options), ReplayEqual, LongerReplayContinues, CutReplay, "
+        "DivergenceDetectedBothSigns, BaseIndependent on every (program, sample, fault) / option pair / behaviour; on the real code "
+        "every truncation point of every distinct encoding must raise SerializationError, changed bytes (representative values; "
+        "every value of the integer-field and exponent bytes for the domain programs) give a scene or SerializationError, foreign "
+        "readers refuse, data encoded under A decodes under B iff A = B as valuations, decoded scenes equal the originals in every "
+        "parameter and object property, replays reproduce the run and report a divergence iff |actual - expected| > tolerance in "
+        "either direction, whatever the magnitude of the recorded value.",
+        "Integer, float and Vector primitives only (no orientations, mutation, str / bytes / pickled or user codecs); representative "
+        "flips per byte outside the sweep programs (truncation exhaustive per encoding); boundary core + seeded random programs of "
+        "the finite-discrete fragment; harness-written deterministic simulator for replays; decoding in another process not "
+        "exercised; byte layout is diagnostic only. Open known finding: options-value-type (override values hashed without their "
+        "type); short-read, corrupt-index-exception and divergence-negative are repaired.",
         "3/C18",
     ),
     "C03": (
         "model_checking",
-        "TLA+ RegionSampling.tla (discrete samplers exactly; the generic union/intersection/difference samplers as state machines "
-        "checked by TLC over all pairs of subsets of 5 atoms with exact rationals: ChainRule, Proportional) bound to the code by "
-        "exhaustive scripted-RNG replay of discrete compositions (exact laws), trace validation of the real generic samplers with "
-        "the same actions, and lattice classification of seeded samples by RegionGeom.tla",
-        "Layer (a): the exact law of every discrete composition (point sets, grids, point set x region) must be uniform on the "
-        "composed set computed from lattice membership; layer (b): traces of the real UnionRegion/IntersectionRegion/"
-        "DifferenceRegion samplers (choices weights, operand draws, multiplicity coin, returned point) must be behaviours of the "
-        "TLC-checked machine; layer (c): every sample of every primitive and specialised composition must be a member in all three "
-        "coordinates, polygon triangulation weights exact.",
-        "Uniformity of continuous primitive samplers is NOT decided (membership and triangulation weights only); two operands; "
-        "lattice sub-universe; seeded traces.",
+        "TLA+ RegionSampling.tla over RegionGeom.tla: discrete samplers exactly and the generic union / intersection / difference "
+        "samplers as state machines; TLC enumerates every behaviour over an abstract universe (all ordered pairs of non-empty "
+        "subsets of 5 atoms, exact rational weights) and checks proportionality to the measure of the composed set; bound to the "
+        "code by exhaustive scripted-RNG replay of discrete compositions (exact laws), trace validation of the real generic "
+        "samplers with the same actions, and TLC classifying seeded samples and triangulation weights on the lattice",
+        "TLC checks ChainRule, ReturnInSet, RejectSound, Proportional, OperationalBelowDenot, DiscUniform on every behaviour. Every "
+        "RNG branch of the real samplers of 274 discrete compositions (point sets, grid, point set x region, both orders) must "
+        "reproduce the uniform law on the composed set computed from lattice membership; every logged trace of the real "
+        "UnionRegion / IntersectionRegion / DifferenceRegion samplers (choices weights, operand draws, multiplicity coin, returned "
+        "point) must be a behaviour of the machine; every sample of every primitive and specialised composition must be a member "
+        "in all three coordinates; the cumulative triangle weights of every polygonal result (incl. multi-component polygons and "
+        "compositions) must be the running sum of the areas and the selection law exactly area/total.",
+        "Uniformity of continuous primitive samplers is NOT decided (membership, triangulation weights and triangle selection law "
+        "only; no statistical test); the level rests on layers (a) and (b), the sample layer is exploration-grade; two operands; "
+        "lattice sub-universe; seeded traces; voxel / view regions not covered. No open finding (sector circumcircle, point-set "
+        "intersection crash and footprint membership, polygon height are repaired).",
         "3/C03",
     ),
     "C05": (
@@ -107,25 +136,38 @@ CHECKS = {
         "their side conditions, checked by TLC on every leaf assignment; bound to the code by replay: every node of every DAG is a "
         "global parameter of a generated program and every RNG branch of Scenario.generate is compared with TLC's vectors, "
         "supportInterval must contain the exact support",
-        "TLC enumerates every leaf assignment of every case, checks the Python laws, the rewrite side conditions and the dependency "
-        "fixpoint and prints every node value and the exact supports; the set of value vectors observed over all RNG branches of "
-        "the real program must equal the printed set and each supportInterval must contain the spec's min/max or be unknown.",
-        "Exact sub-universe (ints, dyadic floats, tuples; Range scripted to lo/mid/hi); error and non-dyadic cases dropped by the "
-        "spec's well-formedness predicate; vectors, orientations, trigonometry, str, dicts not covered; exhaustive core + seeded "
-        "random DAGs; four open known findings.",
+        "For every case (expression DAG over DiscreteRange / Uniform / Discrete / Range leaves, or a class chain with "
+        "self-dependent defaults plus one object with specifiers) TLC enumerates every leaf assignment, checks Python's division / "
+        "rounding / slicing laws, the eight construction rewrites with their side conditions and the dependency fixpoint, and "
+        "prints the plain-Python value of every node and the exact supports; the set of value vectors observed over all RNG "
+        "branches of the real program must equal the printed set and each supportInterval must contain the spec's [min, max] or "
+        "be unknown. Expr.tla's rows are cross-checked against CPython on every case (disagreement = machinery failure).",
+        "Exact sub-universe (ints, dyadic floats, tuples / lists; Range scripted to lo/mid/hi); cases where plain Python raises, a "
+        "leaf support is empty or a value leaves the dyadics are dropped by the spec's well-formedness predicate; comparisons enter "
+        "through lifted functions only; literal containers indexed by random values and star-calls through bound methods of "
+        "literals with random fields are outside the fragment; vectors, orientations, trigonometry, str, dicts not covered; "
+        "exhaustive depth-2 core + seeded random DAGs and class chains, not all programs; the Scenic-text / JSON printer pair is "
+        "trusted. No open finding (the seven defects found are repaired; their named deviations stay in the spec for regression).",
         "3/C05",
     ),
     "C06": (
         "model_checking",
-        "TLA+ Specifiers.tla: the reference's declarative five-step resolution and the _resolveSpecifiers algorithm as a state "
-        "machine over the documented specifier table; TLC enumerates every word of specifier symbols per class (EvalSeesFinal, "
-        "WrittenOnce, ExactlyOne, DeclOrderIndependent, DupIsTie, DiffExplained); bound to the code by table conformance of every "
-        "documented form and class default and by replay of the emitted cases as `new C <specifiers>` in compiled Scenic programs",
-        "Every documented form's priorities, dependencies and modifying-ness and every class default are compared with the code; "
-        "each replayed (bag, permutation, class) must raise an admissible error kind or give every property its documented winner's "
-        "value in the final context, evaluated in an order satisfying the reference's dependency edges.",
-        "Tables hand-transcribed from the reference; words <= 3 (4 in 2D over 9 symbols), length 3 sampled in quick; value functions "
-        "are C07's subject; known finding tie-below-winner.",
+        "TLA+ Specifiers.tla: the reference's declarative five-step resolution (Decl) and the _resolveSpecifiers algorithm as a "
+        "state machine over the documented specifier table (33 symbols for 91 forms, class tables); TLC enumerates every word of "
+        "specifier symbols per class (EvalSeesFinal, WrittenOnce, ExactlyOne, DeclOrderIndependent, DupIsTie, DiffExplained); "
+        "bound to the code by table conformance of every documented form and class default and by replay of the emitted cases as "
+        "`new C <specifiers>` in compiled Scenic programs (exception kind, per-property winner via values in the final context, "
+        "evaluation order)",
+        "TLC checks the invariants on every sub-bag x permutation up to the bound and prints the reference outcome of each case "
+        "(the machine, kept as the named pre-repair deviation, may differ from Decl only under TieBelowWinner). Every documented "
+        "form's priorities, dependencies and modifying-ness and every class default are compared with the code; each replayed "
+        "(bag, permutation, class) must raise an admissible error kind or give every property its documented winner's value "
+        "evaluated in the final context, in an evaluation order satisfying the reference's dependency edges. The verdict is "
+        "agreement with Decl.",
+        "Symbol and class tables hand-transcribed from the reference; words <= 3 (quick: length 3 only for Object / Object2D, "
+        "sampled in replay; thorough: all, 4 in 2D over 9 symbols); a deterministic FlatRegion stands for regions; value functions "
+        "themselves are C07's subject; `dynamic` only table-checked, mutation of existing objects not exercised. No open finding "
+        "(tie-below-winner is repaired; a regression is a violation).",
         "3/C06",
     ),
     "C07": (
@@ -134,11 +176,17 @@ CHECKS = {
         "(cube-group and Pythagorean rotations as integer matrices with a common denominator), evaluated and lemma-checked by TLC "
         "per case; bound to the code by replay: every case created in a compiled Scenic program, position / orientation matrix / "
         "operator value compared (abs tol 1e-6)",
-        "TLC evaluates every generated case (constructs x reference poses x rotations x parent orientations), checks the frame "
-        "lemmas (bounding-box gap through the target's inverse orientation, line-of-sight frame, isometry) and prints expected "
-        "position, rotation matrix, angle or squared distance; all replayed on real objects.",
-        "Sub-universe only (quarter lattice, cube rotations + Pythagorean yaws); `by` absent or scalar; `following`/`on`/`distance "
-        "past` not covered; `apparently facing` demanded only for planar parents (known finding); case printer is trusted glue.",
+        "TLC evaluates every generated case (constructs x reference poses x rotations x parent orientations; incl. `facing` a "
+        "vector field or value under given / inherited tilted parents and `on` placement onto box surfaces, volumes, object tops "
+        "and vectors with the nearest hit on either side), checks the frame lemmas (bounding-box gap through the target's inverse "
+        "orientation, line-of-sight frame, side points on the box, forward axis parallel to the direction, P * (P^-1 * F) = F, "
+        "nearest-hit lemma, isometry) and prints expected position, rotation matrix, angle or squared distance; all are replayed "
+        "on real objects.",
+        "Sub-universe only (quarter lattice, 24 cube rotations + Pythagorean yaws, Pythagorean lines of sight); `by` absent or "
+        "scalar; `following`, the random specifying form of `on <region>`, `distance past`, field-valued `relative to`, mesh "
+        "surfaces other than box faces not covered; `apparently facing` demanded only for planar (pure-yaw) parents, free under "
+        "pitch / roll because the reference does not say; quick is a seeded sample of the cross product; the case printer is "
+        "trusted glue. No open finding (beyond and apparently-facing parent orientation, projectVector nearest hit are repaired).",
         "3/C07",
     ),
     "C17": (
@@ -147,39 +195,59 @@ CHECKS = {
         "checked by TLC over templates x relative rotations x viewer orientations x viewer parameters x occluder prefixes; bound to "
         "the code by replay: real Point/OrientedPoint/Object (3D and 2D) built at the printed poses, canSee / "
         "visibleRegion.containsPoint / the `can see` operator compared",
-        "TLC enumerates every case of the generated cross product, checks the frame lemmas, consistency of the three object clauses "
-        "with each other and with the exact point specification, and monotonicity in occluders; every printed expectation "
-        "(TRUE/FALSE/free per occluder prefix) is replayed on the real objects.",
+        "TLC enumerates every case of the generated cross product (incl. templates with long / large occluders whose centre lies "
+        "outside the view distance while the body crosses the sight line), checks the frame lemmas (inverse orientation undoes "
+        "placement, rigid lengths, axis alignment), consistency of the three object clauses with each other and with the exact "
+        "point specification, and monotonicity in occluders; every printed expectation (TRUE/FALSE/free per occluder prefix; "
+        "visibleRegion membership for point targets) is replayed on the real objects, a sample also through `require ... can see` "
+        "in compiled programs.",
         "Sub-universe only: quarter-lattice scenes, 24 cube rotations + 5 Pythagorean yaws, view angles {90,180,270,360}x{90,180}, "
-        "box targets/occluders; exact for points off boundaries, three clauses for objects (rest free).",
+        "box targets / occluders; exact for point targets off boundaries, three clauses for objects (everything else free, decided "
+        "by ray sampling in the code); visibleRegion with a 25 % margin on curved faces; quick uses a seeded subset of the "
+        "rotations and replays part of the 3D box cases; the visibility requirements of scenes are C02's subject. No open finding "
+        "(point-branch rotation order, wide sector polygon, Point.visibleRegion radius are repaired).",
         "3/C17",
     ),
     "C08": (
         "model_checking",
-        "TLA+ Relations.tla (function specification of bound extraction from requirement syntax: every comparison shape x "
-        "constants, soundness of the tightest interval checked by TLC) and Pruning.tla (feasible positions of lattice programs "
-        "versus the documented pruning techniques); bound to the code by replay of the extracted relations and by differential "
-        "validation: each program compiled with and without pruning, feasible probes must lie in the real pruned region and "
-        "accepted scenes of the unpruned program must be generable",
-        "TLC enumerates every requirement shape and every lattice program of the batch, checks Feasible within PrunedIdeal within "
-        "Base and the soundness of extracted intervals; on the real code a feasible probe outside the pruned region, a satisfiable "
-        "program refused or not terminating, or a non-positional property changed is a violation.",
-        "Lattice sub-universe (rectilinear regions, headings multiple of 90 degrees), marginal feasibility over a finite witness set, "
-        "seeded programs; an unsound interval alone is only an observation unless it changes a pruned region.",
+        "TLA+ Relations.tla (function specification of bound extraction from requirement syntax: every comparison shape incl. the "
+        "abs(Q +- k) / abs(k +- Q) forms x constants, soundness of the tightest interval checked by TLC) and Pruning.tla (feasible "
+        "positions AND poses of lattice programs versus the documented pruning techniques); bound to the code by replay of the "
+        "extracted relations, by probing the real pruned regions at every lattice probe, by a pose replay (real containsObject in "
+        "every lattice pose against the spec's Feasible bit) and by differential validation: each program compiled with and "
+        "without pruning under a time guard, accepted scenes of the unpruned program must lie in the real pruned region",
+        "TLC enumerates every requirement shape and every probe of every lattice program of the batch (containment with offsets and "
+        "with constant / random yaw, pitch, roll, box volumes, visibility, relative heading on polygonal vector fields), checks "
+        "RuleSound / RuleTight / MirrorSound and Feasible within PrunedIdeal within Base; on the real code an extracted interval "
+        "must contain the true hull, and a feasible probe outside the pruned region, a base-exterior probe inside it, a "
+        "satisfiable program refused or timing out, a changed non-positional property or a lost accepted scene is a violation.",
+        "Lattice sub-universe (rectilinear regions, box objects, angles multiple of 90 degrees, Range between lattice angles), "
+        "per-object (marginal) feasibility over a finite witness set, seeded programs + fixed core; an unsound interval alone is "
+        "only an observation unless it changes a pruned region; voxel erosion that keeps too much, generic angles and random "
+        "heading offsets not covered; regions depending on a random observer are probed before pruneVisibility. No open finding "
+        "(the seven pruning defects found are repaired and act as regression guards).",
         "3/C08",
     ),
     "C20": (
         "model_checking",
-        "TLA+ MapCache.tla (cache protocol: Load/EditMap/ChangeOptions/CorruptCache/BumpVersion) model-checked exhaustively and "
-        "replayed behaviour by behaviour on the real Network.fromFile; TLA+ RoadNet.tla (40 named conjuncts of WellFormed from the "
-        "attribute documentation and the maintainers' single-map tests) evaluated by TLC on the exported link structure and measured "
-        "point facts of every present map x parser options x parsed/cached/mutated file; byte-fault sweep of a cache file",
-        "TLC explores every sequence of <= 4 cache actions and checks HitOnlyWhenAllMatch, HitWhenAllMatch, FreshNetwork, "
-        "CacheHonest, WriteRewrites, LoadTotal; every printed behaviour is replayed with hit/miss observed through wrapped "
-        "fromPickle/fromOpenDrive and the loaded network compared with a fresh parse; all present maps are exported and audited "
-        "conjunct by conjunct; 25 in-process mutants of the structure must be flagged.",
-        "State audit, not a proof about the parser; geometric facts measured with shapely at a seeded sample of points; Town03/05 "
-        "placeholders skipped; three known findings.",
+        "TLA+ MapCache.tla (cache protocol of Network.fromFile: Load/EditMap/ChangeOptions/CorruptCache/BumpVersion, and ordered "
+        "pairs of option sets from the whole option universe with the cache fresh / absent / stale / corrupt in between) "
+        "model-checked exhaustively and replayed behaviour by behaviour on the real Network.fromFile; TLA+ RoadNet.tla (40 named "
+        "conjuncts of WellFormed from the attribute documentation and the maintainers' single-map tests) evaluated by TLC on the "
+        "exported link structure and measured point facts of every present map x parser options x parsed/cached/mutated file "
+        "(state audit); byte-fault sweep of a cache file",
+        "TLC explores every sequence of <= 4 cache actions and every ordered pair of option sets (each option absent / explicit "
+        "default / falsy / None / other: 17 accepted sets) and checks HitOnlyWhenAllMatch, HitWhenAllMatch, FreshNetwork, "
+        "CacheHonest, WriteRewrites, OnlyLoadWrites, LoadTotal; the printed behaviours (all 289 + 16 fresh-cache pairs, a seeded "
+        "part of the rest in quick) are replayed with hit/miss observed through wrapped fromPickle/fromOpenDrive and the loaded "
+        "network compared, incl. option-dependent observables, with a fresh parse under the SAME options; all present maps are "
+        "exported and audited conjunct by conjunct, cached networks must export like parsed ones; 25 in-process mutants of the "
+        "structure must be flagged.",
+        "State audit, not a proof about the parser; geometric facts measured with shapely/numpy at a seeded sample of points; "
+        "attributes outside the export (signals, speed limits, tags, curb) not compared; Town03/05 placeholders skipped; option "
+        "sets under which a map fails its own construction assertions are counted, not audited; equivalent spellings of an option "
+        "valuation may hit or parse; crossing conjuncts vacuous (no map has crossings). No open finding (raw-opendrive-id, "
+        "reverse-maneuvers-of-merger, corrupt-cache-served are repaired).",
         "3/C20",
     ),
     "C09": (
@@ -188,61 +256,94 @@ CHECKS = {
         "IdentityWithoutTrigger / Idempotent / PositionsPreserved checked by TLC on every enumerated tree) bound to the code by "
         "replay: each text compiled by Scenic's parser (regenerated from scenic.gram) + compiler must equal Rewrite(CPython's "
         "ast.parse) node by node with line numbers",
-        "Pairwise constructor coverage of Python's abstract syntax (every constructor under every field of every constructor), a "
-        "catalogue of lexical forms and every rewrite trigger, each in module / behaviour / require / specifier context.",
-        "Reduced claim (DESIGN 5): no corpus run over the standard library; the oracle is CPython's parser; columns are don't-cares.",
+        "Pairwise constructor coverage of the Python 3.12 abstract syntax (every constructor under every field of every "
+        "constructor that CPython reads back, minimal + variants), every order of positional / starred / keyword / ** arguments "
+        "CPython accepts in calls and class definitions, a catalogue of ~190 lexical forms and ~75 rewrite-trigger placements, each "
+        "at module level and inside a behaviour body / require condition / specifier argument; tree and line numbers compared "
+        "with Rewrite(ast.parse), and the compiled tree must pass compile().",
+        "Reduced claim (DESIGN 5): no corpus run over the standard library; the oracle is CPython's parser; columns are "
+        "don't-cares; trees deeper than two constructors and tokenizer behaviour outside the catalogue are not covered; an "
+        "unparenthesised Python expression in a require / specifier position may be refused. No open finding (f-string, ternary "
+        "chain, behaviour-local target, empty target and star-annotation defects are repaired).",
         "3/C09",
     ),
     "C10": (
         "exploration",
-        "TLA+ FrontEnd.tla (compilation lifecycle over the veneer state, model-checked exhaustively) + FrontEndTrace.tla validating "
-        "recorded traces of seeded token-mutation runs of scenarioFromString / parse+compile; FrontEndForms.tla formulas and every "
-        "form quoted in the reference replayed into the parser",
-        "Each mutated program must end in a scenario or a ScenicSyntaxError with a line inside the input, leave the veneer "
-        "quiescent, and its event trace must be a behaviour of the lifecycle machine; every documented form must compile with the "
-        "documented grouping.",
-        "Totality over all texts is approximated by seeded mutation of ~900 seed programs; exec-stage user errors are don't-cares.",
+        "TLA+ FrontEnd.tla (compilation lifecycle over the veneer's global state, re-entrant through imports, failure at every "
+        "step, model-checked exhaustively) + FrontEndTrace.tla validating traces recorded by probes wrapped around the translator / "
+        "veneer entry points while seeded token-mutated, line-truncated and targeted programs run through scenarioFromString, "
+        "scenarioFromFile (incl. imported modules, CRLF / tabs / BOM / non-UTF-8 files) and parse+compile; FrontEndForms.tla "
+        "formulas and every form quoted in the reference replayed into the parser",
+        "Each program must end in a scenario or a ScenicSyntaxError naming a line inside the module it names (and, from a file, "
+        "carrying that line's text), leave the veneer, sys.path and sys.modules quiescent also for the next compilation in the "
+        "same process, and its event trace must be a behaviour of the lifecycle machine (an internal error at an input stage has "
+        "no action); every documented form and every requirement formula of depth <= 2 must compile with the documented grouping.",
+        "Totality over all texts is approximated by seeded mutation of ~880 seed programs, truncation of 7 base programs at every "
+        "line boundary and 55 targeted texts; exec-stage errors of the user's own code are don't-cares (only cleanup is checked); "
+        "error messages not compared; seeds needing a simulator / map world model only go through the bare pipeline. No open "
+        "finding (all front-end crashes found are repaired).",
         "3/C10",
     ),
     "C15": (
         "model_checking",
-        "TLA+ Determinism.tla: self-composition of the sampler machine on one program and RNG stream under different environments "
-        "(dependency order, check order, internal RNG consumption, prior scenes); TLC shows the ordered model deterministic and the "
-        "set-ordered / no-restore models not; bound to the code by cross-process trace validation (DeterminismTrace.tla looks for "
-        "ONE dependency order explaining the draw traces of N perturbed fresh processes) and equality of canonical dumps",
-        "Every program is run in N fresh processes with the same seeds and different perturbations (hash seed, heap layout, jittering "
-        "clock, prior scenes); dumps (params, object properties, iterations, generator state, simulation results) must be identical "
-        "and the draw traces jointly accepted by DeterminismTrace.tla.",
-        "Finite-discrete programs plus a few dynamic ones; perturbations are a sample of the environments; counts of exposed "
-        "programs vary with the heap, the verdict does not.",
+        "TLA+ Determinism.tla: self-composition of the Sampler machine (two copies, same program and RNG stream with a position, "
+        "different environments: order of an unordered group of dependencies (requirement-only values / an object's random "
+        "properties), requirement-check order as a nondeterministic permutation, internal randomness between SaveRng/RestoreRng, "
+        "0-2 prior scenes) checked by TLC; the set-ordered, never-restored and restored-only-when-accepted variants must fail; "
+        "bound to the code by cross-process trace validation (DeterminismTrace.tla looks for ONE unlogged order explaining the "
+        "draw traces of N perturbed fresh interpreters) and equality of canonical dumps",
+        "TLC enumerates every environment and RNG stream for programs with <= 3 values in the unordered group, <= 3 requirements "
+        "(all check orders), <= 2 prior scenes and checks Deterministic, PrefixConsistent, StreamUntouched, FlagsFresh "
+        "(counterexamples of the failing variants in the evidence). Every generated program is run in 4-6 (quick) / 7-9 "
+        "(thorough) fresh processes with the same seeds and different hash seeds (chosen to cover the orderings of the needed "
+        "names), heap layout, scripted asc / desc or jittering checker clock, prior scenes, import order, reused process; the "
+        "dumps (params, all object properties, iterations, further scenes, simulation result, generator states afterwards) must "
+        "be identical and every traced draw trace a behaviour of the specification under one common order.",
+        "Program families: finite-discrete programs (requirement-only values, RNG-consuming requirements, behaviours simulated with "
+        "DummySimulator), classes whose defaults need several random properties, a ring-arena mesh program (dump comparison only, "
+        "no trace); a handful of perturbed layouts / hash seeds / timing profiles per program, not all (the exhaustive enumeration "
+        "is on the model); pruning, visibility and external samplers are outside; run-time draws are logged but not replayed in "
+        "TLC. No open finding (requirement-deps-set-order is repaired; a regression is a violation).",
         "3/C15",
     ),
     "C16": (
         "model_checking",
         "TLA+ RegionAlg.tla / RegionGeom.tla: structural 3-D membership, height, AABB, distance, intersects and containment of "
         "lattice regions and their compositions with the set laws as TLC invariants over every ordered pair of a 29-region "
-        "catalogue x 700 probes; bound to the code by replay of containsPoint/z/AABB/distanceTo/intersects/containsRegion and by "
-        "TLC classifying seeded samples of every result region",
-        "The set laws hold in the spec on every (ordered pair, operation); every real answer, height and sample must agree with the "
-        "printed expectation; unsupported combinations must refuse with the documented exception kinds.",
-        "Lattice sub-universe; quick = 213 of 841 ordered pairs; containsPoint compared only in the common plane of planar "
-        "operands; projectVector and lazy operands not bound; several open known findings.",
+        "catalogue x 700 probes, plus reuse histories (one operand object reused over several steps against operands translated "
+        "along z, HistoryFree); bound to the code by replay of containsPoint/z/AABB/distanceTo/intersects/containsRegion of "
+        "operands and results and by TLC classifying seeded samples of every result region",
+        "TLC checks LawMember, LawCommute, LawPartition, LawIdentities, LawPlane, HeightSound, BoxSound, DistSound, "
+        "IntersectsSound, ContainsSound, HistoryFree on every (ordered pair, operation) and history step; every answer of the real "
+        "regions on the probes the spec allows, every height and AABB, and every sample drawn from a result must agree with the "
+        "printed expectation, whatever the operand objects were used for before; unsupported combinations must refuse with the "
+        "documented exception kinds (anything else is a crash).",
+        "Integer-lattice sub-universe only (axis-parallel / 45-90 degree shapes, heights 0 and 2); quick = 469 of 841 ordered "
+        "pairs; containsPoint compared only in the common plane of planar operands and clear of boundaries; touching "
+        "configurations and samples in cells crossed by an arc are don't-cares; curved kinds with a margin; projectVector and "
+        "lazily evaluated operands not bound; size compared only indirectly (C03). No open finding (the ten region defects found "
+        "are repaired; their trigger predicates stay in the spec but excuse nothing).",
         "3/C16",
     ),
     "C11": (
         "model_checking",
         "TLA+ Temporal.tla (textbook strong finite-trace semantics Sat, Doomed, a transcription of the rv_ltl four-valued monitor "
-        "with an as-implemented/corrected switch, and the printer of the concrete syntax) checked by TLC on every (formula, trace "
-        "prefix) of the batch; bound to the code by replay: generated Scenic programs whose atoms read a harness-owned step-indexed "
-        "truth table, one DummySimulator run per (formula, placement, trace), outcome compared with TLC's record; proposition tree "
-        "read back for both parenthesisations",
-        "For every formula of the batch TLC enumerates all traces over two atoms up to length 3 (quick) / 4 (thorough), checks "
-        "MonitorExact, RejectSound, DemandExact, CurrentStepOnly, DiffOnlyUnderTrigger, OutcomeVerdict (and DoomMonotone, "
-        "HorizonStable, TrueIsAssured, Dualities on a lemma batch); the real `require` at top level and in a sub-scenario's setup "
-        "block must be accepted iff Sat, rejected early only where Doomed, at once for `always` of a false non-temporal condition; "
-        "the tree built from minimal and fully parenthesised text must be the formula.",
-        "Two atoms, traces <= 4, depth <= 3 (depth 3 sampled); atoms are pure table look-ups; a `require` executed inside a compose "
-        "block is not exercised (undocumented timing); known finding: third-party rv_ltl until at an offset.",
+        "with an as-implemented/corrected switch, the offset of the step at which the statement takes effect, and the printer of "
+        "the concrete syntax) checked by TLC on every (formula, offset, trace prefix) of the batch; bound to the code by replay: "
+        "generated Scenic programs whose atoms read a harness-owned step-indexed truth table, one DummySimulator run per "
+        "(formula, placement, trace), outcome compared with TLC's record; proposition tree read back for both parenthesisations",
+        "For every formula of the batch (all of depth <= 1, the forms the reference quotes, pointed shapes, a seeded sample (quick) "
+        "/ all (thorough) of depth 2, a depth-3 sample) TLC enumerates all traces over two atoms up to length 3 (quick) / 4 "
+        "(thorough), checks MonitorExact, RejectSound, DemandExact, CurrentStepOnly, DiffOnlyUnderTrigger, OutcomeVerdict, "
+        "NothingBeforeEffect (and DoomMonotone, HorizonStable, TrueIsAssured, Dualities on a lemma batch); the real `require` at "
+        "top level, in a run-time sub-scenario's setup block, and executed in the compose block of the top-level scenario / of a "
+        "sub-scenario after k = 0..2 waits must be accepted iff Sat on its window, rejected early only where Doomed, at once for "
+        "`always` of a false non-temporal condition; the tree built from minimal and fully parenthesised text must be the formula.",
+        "Two atoms, traces <= 4 (compose placements: windows <= 3), depth <= 3 (depth 3 sampled); atoms are pure table look-ups, "
+        "DummySimulator; compose placements run one (k, ending) combination per (formula, trace), not the full product; a "
+        "`require` executed in a behaviour or monitor and soft temporal requirements are not exercised; Doomed looks depth+1 "
+        "steps ahead (stability checked on the lemma batch). Open known finding: until-at-offset (third-party rv_ltl `until` "
+        "under next / always / eventually / until); the parse, non-temporal implies and compose-block defects are repaired.",
         "3/C11",
     ),
     "C12": (
